@@ -532,6 +532,10 @@ process_trace(struct trace *trace)
 		die("malloc failed:");
 
 	for (struct stream *stream = trace->streams; stream; stream = stream->next) {
+		/* Nothing to do in a stream without events */
+		if (!stream->active)
+			continue;
+
 		stream_allow_unsorted(stream);
 
 		if (operation_mode == SORT) {
